@@ -527,6 +527,12 @@ func (s *Session) sendError(err error) (e error) {
 
 	se := stream.Error{}
 	if errors.As(err, &se) {
+		if se.Err == "" {
+			// A stream error without a defined condition (received from a peer
+			// that sent none, or built without one) cannot be put on the wire:
+			// the peer is told undefined-condition, the caller gets the error.
+			se = stream.UndefinedCondition
+		}
 		if _, e = se.WriteXML(s.out.e); e != nil {
 			return e
 		}
